@@ -482,8 +482,24 @@ def cases(draw):
     }
 
 
+def oracle_stack_updates(case, ctx):
+    """A stack fitted for fixed (absolute) time points and then updated: cutoff, labels, and the
+    value under each time point recomposed from the updated members' forecasts of that time
+    point (the history part of what props/c03 checks for one call)."""
+    from props import c03_forecast_index as c03
+
+    return c03.oracle(dict(case, shift=0), ctx)
+
+
+def _stack_update_cases():
+    from props import c03_forecast_index as c03
+
+    return c03.stack_cases()
+
+
 def subchecks():
     return [SubCheck("histories", oracle, cases(), quick=3000, thorough=20000, shards_quick=12, shards_thorough=16),
+            SubCheck("stack_fixed_time_points_updates", oracle_stack_updates, _stack_update_cases(), quick=200, thorough=2000, shards_quick=4, shards_thorough=16),
             SubCheck("detrender_histories", oracle_detrender, detrender_cases(), quick=400, thorough=6000, shards_quick=2, shards_thorough=4)]
 
 
